@@ -18,6 +18,10 @@ THEOREMS: dict[str, list[str]] = {
         "Rbacx.C19.c19_no_leak_secret",
         "Rbacx.C19.c19_never_reintroduced",
         "Rbacx.C19.c19_no_leak_specs_at_state",
+        "Rbacx.C19.c19_no_leak_specs",
+        "Rbacx.C19.c19_placeholder_specs",
+        "Rbacx.C19.c19_spec_redaction_sound",
+        "Rbacx.C19.c19_spec_logger_sound",
         "Rbacx.C19.c19_caller_untouched",
         "Rbacx.C19.c19_priority",
         "Rbacx.C19.c19_priority_only",
